@@ -1,6 +1,6 @@
 """C03 helpers: minimal Vorbis header bit packer (spec-level, independent of lib/), Ogg-level mutation
 operators over vlib.Page lists, CRC patching by linearity, and a batch runner for harness/c03_extra.c."""
-import os, struct, json, subprocess, hashlib, concurrent.futures as cf
+import os, struct, json, subprocess, hashlib, time, concurrent.futures as cf
 import vlib
 from vlib import Page, ogg_crc, parse_pages, packets_of, pages_from_packets
 
@@ -219,13 +219,10 @@ def encode_items(items, cache=None):
     out = []
     for it in items:
         if isinstance(it, Page):
-            if cache is not None:
-                e = cache.get(id(it))
-                if e is None:
-                    e = cache[id(it)] = it.encode()
-                out.append(e)
-            else:
-                out.append(it.encode())
+            # cache: {id(original Page): encoding}, built once from the (live) base page list and never extended here --
+            # ids of temporary mutated pages may be recycled by the allocator, so they must not be cached
+            e = cache.get(id(it)) if cache is not None else None
+            out.append(e if e is not None else it.encode())
         else:
             out.append(it)
     return b''.join(out)
@@ -341,7 +338,7 @@ def byte_substitutions(data, pages, serial, npackets, values=('00', 'ff', 'x01',
 
 
 # ------------------------------------------------------------------ runner
-def run_batches(exe, listfile, cases, timeout_s=10, jobs=None, chunk=400, tag='c03'):
+def run_batches(exe, listfile, cases, timeout_s=10, jobs=None, chunk=400, tag='c03', deadline=None):
     """cases: list of case strings (without index).  Shards into chunks of `chunk` consecutive cases (consecutive cases share
     files, the executor loads files lazily), runs `jobs` executor processes at a time.  A process that dies is restarted on the
     rest of its chunk: 'DIED rc=.. <stderr tail>' is attributed to the first unanswered case, a TIMEOUT line to the case that
@@ -356,6 +353,10 @@ def run_batches(exe, listfile, cases, timeout_s=10, jobs=None, chunk=400, tag='c
     def work(ci):
         idxs = chunks[ci]
         pos = 0
+        if deadline is not None and time.time() > deadline:
+            for i in idxs:
+                res[i] = 'SKIPPED'      # time cap: chunk not started (reported as exhaustive:false by the caller)
+            return True
         while pos < len(idxs):
             cfile = os.path.join(tmp, f'{tag}.{os.getpid()}.{ci}.cases')
             with open(cfile, 'w') as f:
@@ -371,16 +372,24 @@ def run_batches(exe, listfile, cases, timeout_s=10, jobs=None, chunk=400, tag='c
                 i = int(sp[0])
                 res[i] = sp[1] if len(sp) > 1 else ''
                 got += 1
-                if res[i] == 'TIMEOUT':
+                if res[i].startswith('TIMEOUT'):
                     timed_out = True
             os.unlink(cfile)
+            if timed_out:
+                err = p.stderr.decode('latin-1')
+                cut = err.find('WATCHDOG:')
+                if cut >= 0:
+                    res[idxs[pos + got - 1]] = 'TIMEOUT ' + json.dumps(err[cut:cut + 1500])
             if got >= len(idxs) - pos:
                 break
             if timed_out:
                 pos += got          # the TIMEOUT line answered its case; continue behind it
                 continue
             bad = idxs[pos + got]
-            res[bad] = 'DIED rc=%d %s' % (p.returncode, json.dumps(p.stderr.decode('latin-1')[-2500:]))
+            err = p.stderr.decode('latin-1')
+            cut = min([x for x in (err.find('ERROR: AddressSanitizer'), err.find('runtime error:')) if x >= 0] or [max(0, len(err) - 2500)])
+            cut = max(0, err.rfind('\n', 0, cut) + 1)
+            res[bad] = 'DIED rc=%d %s' % (p.returncode, json.dumps(err[cut:cut + 2500]))
             pos += got + 1
         return True
 
@@ -393,6 +402,8 @@ def parse_result(r):
     """'O=.. R=.. F=.. B=.. C=.. L=..' -> dict, or {'raw': r} for TIMEOUT/DIED/None."""
     if r is None:
         return {'raw': 'NOOUTPUT'}
+    if r.startswith('TIMEOUT'):
+        return {'raw': 'TIMEOUT', 'stack': r[8:]}
     if not r.startswith('O='):
         return {'raw': r}
     d = {}
